@@ -558,10 +558,33 @@ def _run(ctx, family, params):
         cs = rng.uniform(0.3, 2.0, len(atn))
         al = _loguniform(rng, 0.4, 3.0, len(atn))
         subj = _subject("solve_poisson_bvp:molgrid", params["rad"], params["opts"]) + f":{len(atn)}-centre"
-        rho = ref.gauss_density(mg.points, cs, al, coords)
+        # the accuracy is relative to the total charge at EVERY charge scale (linearity): weak densities (perturbation /
+        # response densities, coefficients 1e-7 .. 1e-10) and strong ones must be solved as well as O(1) ones
+        lam = [1.0, float(_loguniform(rng, 1e-10, 1e-9)), 1.0, float(_loguniform(rng, 1e2, 1e5))][int(params.get("k", 0)) % 4]
+        rlp = params["opts"].get("rlp")
+        if lam < 1.0 and not (rlp is None or rlp >= 1e6):
+            # with a truncated radial range the collocation solver's random O(1) initial guess dominates a 1e-9 solution
+            # (measured: V[1e-10 rho]/1e-10 deviates 8-40 % from V[rho] for remove_large_pts=10, 7e-6 for 1e6): outside the
+            # decided envelope, recorded as an observation in DESIGN.md 8.2
+            lam = 1.0
+        if lam != 1.0:
+            subj += ":weak-density" if lam < 1 else ":strong-density"
+            ctx.count("bvp-mol:scaled-density")
+        rho = lam * ref.gauss_density(mg.points, cs, al, coords)
         pot = _call(ctx, "bvp-accuracy-mol", subj, lambda: solve_poisson_bvp(mg, rho, tf, **_bvp_kwargs(params["opts"])))
         P = _eval_points(rng, coords)
-        _compare(ctx, "bvp-accuracy-mol", subj, pot(P), ref.gauss_potential(P, cs, al, coords), TOL_ACC, float(np.sum(np.abs(cs))), note="err/sum|c|", extra={"alphas": al, "coords": coords, "atnums": atn})
+        if True:  # accuracy relative to the total charge at every decided charge scale (weak scale only inside the envelope above)
+            _compare(ctx, "bvp-accuracy-mol", subj, pot(P) / lam, ref.gauss_potential(P, cs, al, coords), TOL_ACC, float(np.sum(np.abs(cs))), note="err/sum|c|", extra={"alphas": al, "coords": coords, "atnums": atn, "charge_scale": lam})
+        if lam < 1.0:
+            # and the composition rule itself at that scale: the molecular potential equals the sum of the atomic-grid
+            # potentials of w_A * rho, recomputed here from the public pieces (random initial guesses differ: 5e-2)
+            tot = 0.0
+            for i in range(len(atn)):
+                sl = slice(int(mg.indices[i]), int(mg.indices[i + 1]))
+                at = mg.get_atomic_grid(i)
+                pa = _call(ctx, "mol-equals-sum-of-atomic", subj, lambda: solve_poisson_bvp(at, (rho * mg.aim_weights)[sl], tf, **_bvp_kwargs(params["opts"])))
+                tot = tot + pa(P)
+            _compare(ctx, "mol-equals-sum-of-atomic", subj, pot(P) / lam, tot / lam, 5e-2, float(np.sum(np.abs(cs))), note="err/sum|c|", extra={"charge_scale": lam})
 
     elif family == "ivp":
         spec = {"kind": "trap-linfinite", "n": params["n"], "rmin": 1e-3, "rmax": 1e3}
